@@ -24,6 +24,16 @@ CHECKS = {
                   "generated delivery sequences.",
                   "explicit TLA+ specification (Protocol.tla) enumerated by TLC; TLC-generated cases replayed "
                   "on the real Controller and client"),
+    "C12": _entry("C12",
+                  "ReloadConfig.tla models configuration versions, the daemon's per-watcher snapshots and "
+                  "reload_from_config's diff as coded; TLC checks Same/Keep/Delta/Idem exhaustively over edit "
+                  "sequences (every violation must be explained by a recorded deviation branch) and emits the "
+                  "sequences; each is rendered to real ini files, the real arbiter is booted from the first "
+                  "version on the sim binding, every edit goes through the real reloadconfig request, and the "
+                  "result is compared with a second, fresh arbiter booted on the same file and with the pid sets "
+                  "before/after.",
+                  "explicit TLA+ specification (ReloadConfig.tla) model-checked with TLC; TLC edit sequences "
+                  "replayed on the real arbiter (sim binding), fresh-start oracle"),
     "C16": _entry("C16",
                   "ConfigEnv.tla defines the documented meaning of a configuration file (typed options, env "
                   "layering, expansion); TLC enumerates all abstract files within the bounds and emits the expected "
@@ -31,6 +41,14 @@ CHECKS = {
                   "real get_config / Watcher.load_from_config, twice, and compared.",
                   "explicit TLA+ specification (ConfigEnv.tla) enumerated by TLC as the oracle; cases replayed on "
                   "the real parser"),
+    "C17": _entry("C17",
+                  "Redirector.tla models pipes, the redirector's registrations, the loop's handler table and "
+                  "descriptors; TLC checks Prefix/Done/Label/EOF/Fds exhaustively on small constants; TLC-"
+                  "generated behaviours are replayed step by step on the real Redirector over real os.pipe() "
+                  "pairs (handler invoked as tornado would), and a live part runs real workers writing "
+                  "self-describing streams through a real IOLoop over many generations, watching /proc/self/fd.",
+                  "explicit TLA+ specification (Redirector.tla) model-checked with TLC; TLC behaviours replayed "
+                  "on the real Redirector; live generations"),
     "C20": _entry("C20",
                   "FileStream.tla models rotation as coded over intervals of a global offset; TLC checks "
                   "Size/Count/Tail/Plain exhaustively on small constants (and Apalache discharges them as an "
